@@ -330,23 +330,56 @@ def hasBoundPods (pods : List Pod) (name : Nat) (oldNs : List Nat) : Bool :=
   labelPods pods name || pods.any (fun p => p.nsKind == 2 && p.ns == name) ||
   oldNs.any (fun n => pods.any (fun p => p.nsKind == 1 && p.ns == n))
 
+/-- fillQuotaDefaultInformation (the mutating admission that runs before the validating one on create).
+    `none` = error return (the create is denied before ValidAddQuota is reached).
+    * root-named object: untouched;
+    * parent label absent / "" ⇒ written-out root;
+    * tree id "" and parent ≠ root ⇒ the parent must be recorded, its non-empty tree id is inherited;
+    * shared weight absent / "" ⇒ := max; otherwise malformed JSON is an error, and fixedSharedWeight drops the
+      keys max does not declare (the harness' negative weight is on cpu = dimension 0) and adds the missing ones. -/
+def fill (s : Topo) (r : Raw) : Option Raw :=
+  if r.name = 0 then some r else
+  let pc := if r.parentCode = 98 || r.parentCode = 99 then 0 else r.parentCode
+  let tree? : Option Nat :=
+    if r.tree = 0 && pc != 0 then
+      match find s.info pc with
+      | none => none
+      | some p => some p.tree
+    else some r.tree
+  match tree? with
+  | none => none
+  | some t =>
+    if r.swShape = 2 then none
+    else
+      let sw := if r.swShape = 1 && (r.mx.get 0).isSome then 1 else 3
+      some { r with parentCode := pc, tree := t, swShape := sw }
+
 inductive RawOp where
   | add (r : Raw)
+  | madd (r : Raw)                                         -- create through the mutating webhook first
   | upd (r : Raw) (listErr : Bool) (pods : List Pod)
   | del (name : Nat) (listErr : Bool) (pods : List Pod)
 deriving Repr
 
-/-- the old object's namespaces are those of the last accepted object (= the recorded ones). -/
-def decodeOp (s : Topo) : RawOp → Op
-  | .add r => .add (decodeQI r) (swBad r.swShape)
+/-- the old object's namespaces are those of the last accepted object (= the recorded ones).
+    `none`: denied before an entry point is reached. -/
+def decodeOp (s : Topo) : RawOp → Option Op
+  | .add r => some (.add (decodeQI r) (swBad r.swShape))
+  | .madd r =>
+    match fill s r with
+    | none => none
+    | some r' => some (.add (decodeQI r') (swBad r'.swShape))
   | .upd r le pods =>
     let oldNs := match find s.info r.name with
       | some o => o.ns
       | none => []
-    .upd (decodeQI r) (swBad r.swShape) (le || hasBoundPods pods r.name oldNs)
-  | .del n le pods => .del n (le || labelPods pods n)
+    some (.upd (decodeQI r) (swBad r.swShape) (le || hasBoundPods pods r.name oldNs))
+  | .del n le pods => some (.del n (le || labelPods pods n))
 
-def stepRaw (d : Nat) (s : Topo) (r : RawOp) : Topo × Bool := step d s (decodeOp s r)
+def stepRaw (d : Nat) (s : Topo) (r : RawOp) : Topo × Bool :=
+  match decodeOp s r with
+  | none => (s, false)
+  | some op => step d s op
 
 def runRaw (d : Nat) (s : Topo) : List RawOp → Topo
   | [] => s
